@@ -33,6 +33,10 @@ type tree struct {
 
 func (t *tree) lookupAbs(p string) *pw.TNode {
 	p = filepath.Clean(p)
+	if p == "/w/lnk-abs" || strings.HasPrefix(p, "/w/lnk-abs/") {
+		// another name of the source directory (a symlink to it next to it)
+		p = pw.SrcRoot + p[len("/w/lnk-abs"):]
+	}
 	switch {
 	case p == pw.SrcRoot:
 		return &pw.TNode{Root: "src", Kind: "dir"}
@@ -83,6 +87,8 @@ func buildArena(sc *pw.Scenario) error {
 	os.Symlink(pw.SrcRoot, "/w/lnk-abs")
 	os.Symlink("src", "/w/lnk-rel")
 	os.Symlink("/w/lnk-abs", "/w/lnk-chain")
+	os.Symlink("/w/lnk-loop-b", "/w/lnk-loop-a")
+	os.Symlink("/w/lnk-loop-a", "/w/lnk-loop-b")
 	os.WriteFile("/w/hist1/.terraformignore", []byte("!x\ny\n"), 0o644)
 	os.WriteFile("/w/hist1/x", []byte("hx"), 0o644)
 	os.WriteFile("/w/hist1/y", []byte("hy"), 0o644)
@@ -215,6 +221,10 @@ func spell(s, cwd string) string {
 		return "/w/lnk-abs/."
 	case "symlink-chain":
 		return "/w/lnk-chain"
+	case "symlink-rel-trail":
+		return "/w/lnk-rel/"
+	case "symlink-loop":
+		return "/w/lnk-loop-a"
 	}
 	return pw.SrcRoot
 }
@@ -423,6 +433,24 @@ func Run(sc *pw.Scenario) *simkit.Outcome {
 					sharedPacker = nil
 					doPack(o, "/w/hist6", sink)
 					sharedPacker = save
+				}
+			case h == "stale-rules-samelen":
+				// this very directory was packed before in this process, when its rule file had
+				// other content of the same length and the same modification time
+				if sc.Rules != nil && sc.RulesKind == "" {
+					old := []byte(*sc.Rules)
+					for i, c := range old {
+						if (c >= 'a' && c <= 'z') || c == '*' {
+							old[i] = 'q'
+							break
+						}
+					}
+					os.WriteFile(pw.SrcRoot+"/.terraformignore", old, 0o644)
+					setTimes(pw.SrcRoot+"/.terraformignore", 1300000001, 0)
+					doPack(sc.Opts, pw.SrcRoot, sink)
+					os.WriteFile(pw.SrcRoot+"/.terraformignore", []byte(*sc.Rules), 0o644)
+					setTimes(pw.SrcRoot+"/.terraformignore", 1300000001, 0)
+					setTimes(pw.SrcRoot, 1300000000, 0)
 				}
 			case h == "shared:stale-rules":
 				// the same Packer packed this very directory before, under another rule file
